@@ -244,6 +244,7 @@ func runC08(w *World, c *Check) {
 	c.Rule("C08.defaults", "default s2k parameters, protocol-key sizes and seed lengths per etype; RFC 8009 salt prefixes are the etype names", 20)
 	c.Rule("C08.generated", "generated keys are sized by GetKeyByteSize() of the etype they are stamped with, filled by crypto/rand, and every EncryptData accepts exactly that size", 10)
 	c.Rule("C08.precedence", "PA-ETYPE-INFO2 > PA-ETYPE-INFO > PA-PW-SALT regardless of order (RFC 4120 §5.2.7.5)", 2)
+	c.Rule("C08.weakkey", "DES3 random-to-key corrects weak keys per 8-byte DES key: fixWeakKey is applied to each stretch56Bits block (the weak-key table holds 8-byte keys), and flips byte 7 with 0xF0 when weak() says so", 4)
 	c.Rule("C08.salt", "the salt defaults to cname.GetSalt(realm) only when none was supplied; only 4-byte s2kparams are decoded", 3)
 
 	ruleEtypeTable(w, c, "C08.defaults", map[string]bool{"GetKeyByteSize": true, "GetKeySeedBitLength": true, "GetDefaultStringToKeyParams": true})
@@ -407,5 +408,57 @@ func runC08(w *World, c *Check) {
 				c.Note("C08.salt", fk, "stamp-requested-etype", w.Pos(InstrPos(st)), "the returned key is stamped with the requested etype id even when a KDC hint switched the etype used for string-to-key")
 			}
 		}
+	}
+	ruleWeakKey(w, c, "C08.weakkey")
+}
+
+// ruleWeakKey: RFC 3961 §6.3.1 random-to-key: each 56-bit chunk is expanded to an 8-byte DES key
+// and weak keys are corrected per DES key. Structural part: the argument of every fixWeakKey call
+// in DES3RandomToKey is one expanded block (the result of stretch56Bits, or a slice of width 8),
+// every expanded block goes through it, and fixWeakKey xors byte 7 with 0xF0 under weak(b).
+func ruleWeakKey(w *World, c *Check, rule string) {
+	fn := w.Func("crypto/rfc3961.DES3RandomToKey")
+	if fn == nil {
+		c.Missing(rule, "crypto/rfc3961.DES3RandomToKey")
+		return
+	}
+	fa := NewFuncAn(w, fn)
+	fk := FuncKey(fn)
+	bc := newBoundsCtx(w, fn)
+	fix := fa.Calls(`crypto/rfc3961\.fixWeakKey`)
+	str := fa.Calls(`crypto/rfc3961\.stretch56Bits`)
+	c.Decide(len(fix) >= 1 && len(str) >= 1, rule, fk, "calls", w.Pos(fn.Pos()), "random-to-key expands with stretch56Bits and corrects with fixWeakKey", fmt.Sprintf("%d fixWeakKey, %d stretch56Bits calls", len(fix), len(str)))
+	fixed := map[ssa.Value]bool{}
+	for _, ci := range fix {
+		arg := ci.Common().Args[0]
+		ok := false
+		if call, isCall := arg.(*ssa.Call); isCall && fa.CalleeName(call) == "crypto/rfc3961.stretch56Bits" {
+			ok = true
+			fixed[call] = true
+		} else if l := bc.lenLin(arg, 0); l.isConst() && l.k == 8 {
+			ok = true
+			// a width-8 window: which blocks it covers is not tracked, count every block as corrected
+			for _, s := range str {
+				fixed[s.Value()] = true
+			}
+		}
+		c.Decide(ok, rule, fk, "per-block", w.Pos(InstrPos(ci)), "fixWeakKey receives one 8-byte DES key (a stretch56Bits result or a window of width 8)", "argument "+trunc(fa.R.R(arg), 160)+" is not a single expanded block: the 8-byte weak-key table can never match it")
+	}
+	for _, s := range str {
+		c.Decide(fixed[s.Value()], rule, fk, "every-block", w.Pos(InstrPos(s)), "every expanded block is weak-key corrected", "the result of this stretch56Bits call does not go through fixWeakKey")
+	}
+	if ff := w.Func("crypto/rfc3961.fixWeakKey"); ff == nil {
+		c.Missing(rule, "crypto/rfc3961.fixWeakKey")
+	} else {
+		ffa := NewFuncAn(w, ff)
+		g := ffa.MatchGuard(TruePass(substParams(ff, `crypto/rfc3961\.weak\(@0\)`)))
+		okSt := false
+		for _, st := range ffa.storesTo(substParams(ff, `@0\[7\]`)) {
+			v := ffa.R.R(st.Val)
+			if (strings.Contains(v, "^ 240") || strings.Contains(v, "240 ^")) && len(g) == 1 && (st.Block() == g[0].To() || g[0].To().Dominates(st.Block())) {
+				okSt = true
+			}
+		}
+		c.Decide(okSt, rule, FuncKey(ff), "flip", w.Pos(ff.Pos()), "a weak key gets byte 7 xored with 0xF0, and only a weak key", "no store of b[7]^0xF0 under weak(b)")
 	}
 }
